@@ -130,6 +130,7 @@ def run_subcheck(sub, ctx, known, tier, checkpoint=None):
                     # re-finding the same violation
                     raise StopSubcheck() from None
                 return
+            state["violation"] = (v, case)
             raise
 
     share = sub.examples // ctx.nworkers + (1 if ctx.worker < sub.examples % ctx.nworkers else 0)
@@ -184,6 +185,20 @@ def run_subcheck(sub, ctx, known, tier, checkpoint=None):
             muted.add(v.signature)
             failures.append(_failure(sub, v, case))
             remaining -= rec.evaluations - before
+        except Exception as exc:  # noqa: BLE001
+            # Hypothesis reports a failure that does not repeat on its own re-run as "flaky"
+            # (real threads and inotify are involved). The violation was observed all the same:
+            # it is reported with the case that produced it; anything else is a harness error.
+            from hypothesis.errors import Flaky
+
+            if isinstance(exc, Flaky) and state.get("violation") is not None:
+                v, case = state.pop("violation")
+                muted.add(v.signature)
+                rec.event("violation-not-repeated-on-rerun")
+                failures.append(_failure(sub, v, case))
+                remaining -= rec.evaluations - before
+            else:
+                raise
         # Any other exception is a harness error and propagates.
     return rec, failures
 
